@@ -2,7 +2,7 @@
 from bounded import harness, decode
 from bounded.corpus import corpus, bound_text
 
-FAMILIES = ['sel', 'inc', 'con', 'conx', 'forced', 'dvmet']
+FAMILIES = ['sel', 'inc', 'con', 'conx', 'forced', 'dvmet', 'mix']
 
 
 def member(desc, tier, seed):
